@@ -27,6 +27,14 @@ MISSED_FIRST = {
     "C13f_attempt_at_time_zero_is_falsy": "no event ever fell on t = 0.0 exactly; a fifth of the C13 cases place tmin so that one attempt does",
     "C19e_pair_based_masks_in_place": "the optional XY0/XX0 arrays were never passed; now given as full outer products",
     "C19f_get_infected_nodes_mutates_callers_digraph": "the shared graph of C19 sequences was always undirected with gamma>0 mostly; 25% directed, 25% gamma=0 now",
+    "C03e_rejection_gives_up_returns_wrong_variable": "no weighted set needed ~100 rejections; C03 law config `big_star` (one heavy edge among 40 light ones) and the C16 sampled selection-law family added",
+    "C03f_weight_labels_cached_across_calls": "every adapter call used a fresh graph; a priming call on the same graph object with other weights now precedes each explored run",
+    "C16f_accept_test_non_strict": "the scripted seam never answered 0.0 at the acceptance test; zero-weight boundary probe (u = 0.0) added to the C16 machine",
+    "C18e_index_case_from_subgraph_view": "no cross-interpreter case let the simulator choose the index case; xproc variant without initial_infecteds and with initially recovered nodes added",
+    "C04e_first_row_counts_from_IC_values": "IC dicts always had exactly the nodes as keys; `ic_extra` (keys that are not nodes) added to both contagion adapters",
+    "C14e_tie_with_target_recovery_order_dependent": "the SIS tables gave distinct event times by construction; tie-rich half-unit tables in 30% of the C14 fast_nonMarkov_SIS pairs (histories only; 800k runs on the unchanged tree are order-independent)",
+    "C14f_sir_individual_rec_rates_in_graph_order": "ODE pairs never passed nodelist / Y0 / weights; now they do, each side with a nodelist order of its own (found genuine defect #11: pair-based adjacency mask in G.nodes() order)",
+    "C09e_sis_self_loop_link_while_susceptible": "caught by C02 at once; C09 itself only after self-loops entered every SIR/SIS sweep and the oracle stopped counting the status a node enters through a self-transmission as what made it infectious",
     "X1a_surplus_rows_stripped_by_time": "C05 never had an event at tmin; a quarter of the cases now do (row 0 of the arrays only)",
     "X1b_influence_set_before_status_update": "influence sets never depended on statuses; `seir_rates` influence set depends on the node's new status",
 }
